@@ -171,7 +171,12 @@ def cmd_check(a):
         other = {int(k): v for k, v in json.loads(p.stdout.strip().splitlines()[-1]).items()}
         bad = [r for r in sample if other.get(r) != agg["run_digest"][r]]
         det_checked = len(sample)
-        if bad:
+        if bad and (exit_code == 1 or any(not findings.match(known, v["violation"]) for v in agg["violations"])):
+            # the tree under test already violates the property (seeded runs or corpus replays): runs that differ
+            # between processes are then a symptom of the breakage (state kept where none belongs), not a reason
+            # to withhold the violations, each of which is reproduced from its replay file below
+            print(f"warning: runs {bad[:10]} differ in a fresh interpreter; violations are reported from their replay files", file=sys.stderr)
+        elif bad:
             print(f"HARNESS ERROR: non-deterministic runs (digest differs in fresh interpreter / other PYTHONHASHSEED): {bad[:10]}", file=sys.stderr)
             return 2
 
